@@ -136,7 +136,9 @@ def get_hed_version_path(xml_version, library_name=None, local_hed_directory=Non
     if not local_hed_directory:
         local_hed_directory = HED_CACHE_DIRECTORY
 
-    use_installed = local_hed_directory == HED_CACHE_DIRECTORY and not check_prerelease
+    # The same directory may be spelled differently (no trailing separator, relative, through '..').
+    use_installed = (os.path.realpath(local_hed_directory) == os.path.realpath(HED_CACHE_DIRECTORY)
+                     and not check_prerelease)
 
     hed_versions = get_hed_versions(local_hed_directory, library_name, check_prerelease)
     if hed_versions and xml_version and xml_version in hed_versions:
